@@ -66,7 +66,7 @@ class ChpDriver(Contract):
                        ramp=H.real('ramp') if case['ramp'] else None, last_dispatch=H.real('last_dispatch'), min_cap=H.real('min_cap_parameter'), **pv)
         # converted runtimes (callee contract of convert_to_timegrid_freq: an integer number of grid steps per attribute)
         conv = {k: H.int('steps_' + k) for k in ('min_runtime', 'time_already_running', 'min_downtime', 'time_already_off')}
-        ctx = dict(self_obj=self_obj, op=op, n=n, c0=c0, l0=l0, u0=u0, R=R, tg=tg, pv=pv, conv=conv, dtf=dtf, idx_nodes=idx_nodes, H=H,
+        ctx = dict(self_obj=self_obj, op=op, n=n, c0=c0, l0=l0.copy(), u0=u0.copy(), R=R, tg=tg, pv=pv, conv=conv, dtf=dtf, idx_nodes=idx_nodes, H=H,
                    kwargs=dict(prices={'p': H.real_arr('price', n)}, timegrid=None, costs_only=case['costs_only']))
         H.protect[id(c0)] = 'cost vector of the Contract problem'
         return ctx
